@@ -370,7 +370,7 @@ Section Wallet.
         - newaccount:wallet-scrypt-ignored  NewAccount on a wallet whose parameters differ from
           the ones NewAccount encrypts with;
         - import:duplicate-address          ImportAccount of an address the wallet already holds;
-        - chpwd:empty-new-password          ChangePassword to the empty password (the last
+        - chpwd:empty-new-password          ChangePassword from a non-empty to the empty password (the last
           disjunct, ChangePassword and getAccount disagreeing on the parameters, is false on the
           current code; it keeps the theorem meaningful if Gen/WalletConsts.v changes). *)
   Definition op_caller_ok (w : wallet) (o : op) : Prop :=
@@ -383,7 +383,8 @@ Section Wallet.
     match o with
     | ONew _ _ _ _ => negb (scrypt_eqb (newacct_params w) (open_params w))
     | OImport _ addr _ _ _ _ _ _ _ => match get_meta_by_address w addr with Some _ => true | None => false end
-    | OChangePwd _ _ new => String.eqb new "" || negb (scrypt_eqb (chpwd_params w) (open_params w))
+    | OChangePwd _ old new =>
+        (String.eqb new "" && negb (String.eqb old "")) || negb (scrypt_eqb (chpwd_params w) (open_params w))
     | _ => false
     end.
   Definition op_clean (w : wallet) (o : op) : Prop := op_caller_ok w o /\ in_finding_class w o = false.
